@@ -164,6 +164,63 @@ def run_z3(smt2, timeout_ms, evals=None, seed=0, prefer=None):
     return {"verdict": "unknown", "backend": "z3", "time": time.time() - t0, "reason": reason}
 
 
+def _has_quantifier(e, seen=None):
+    seen = set() if seen is None else seen
+    stack = [e]
+    while stack:
+        x = stack.pop()
+        if x.get_id() in seen:
+            continue
+        seen.add(x.get_id())
+        if z3.is_quantifier(x):
+            return True
+        stack.extend(x.children())
+    return False
+
+
+def run_z3_weakened(smt2, timeout_ms, evals=None, seed=0, prefer=None):
+    """Refutation aid for obligations both solvers left open: drop the quantified HYPOTHESES (keep the negated goal and every
+    quantifier-free hypothesis) and look for a model.  Such a model is only a CANDIDATE counterexample -- it need not satisfy the
+    dropped hypotheses -- so the result is marked `weakened` and counts as a refutation only if the replay on the real code confirms it."""
+    ctx = z3.Context()
+    t0 = time.time()
+    try:
+        fs = list(z3.parse_smt2_string(smt2, ctx=ctx))
+        if len(fs) < 2:
+            return None
+        hyps, neg_goal = fs[:-1], fs[-1]
+        kept = [h for h in hyps if not _has_quantifier(h)]
+        if len(kept) == len(hyps):
+            return None
+        s = z3.Solver(ctx=ctx)
+        s.set("timeout", int(timeout_ms))
+        for h in kept:
+            s.add(h)
+        s.add(neg_goal)
+        if prefer:
+            decls = "\n".join(l for l in smt2.splitlines() if l.startswith("(declare-") or l.startswith("(define-"))
+            s.push()
+            for p in (prefer[-1] if isinstance(prefer[0], list) else prefer):
+                try:
+                    for f in z3.parse_smt2_string(decls + f"\n(assert {p})", ctx=ctx):
+                        s.add(f)
+                except z3.Z3Exception:
+                    continue
+            if s.check() != z3.sat:
+                s.pop()
+                if s.check() != z3.sat:
+                    return None
+        elif s.check() != z3.sat:
+            return None
+        m = s.model()
+        res = {"verdict": "sat", "backend": "z3", "time": time.time() - t0, "model": _model_to_dict(m, ctx, smt2), "weakened": True,
+               "note": f"candidate model of the negated goal and the {len(kept)} quantifier-free hypotheses ({len(hyps) - len(kept)} quantified hypotheses dropped)"}
+        res["evals"] = _eval_terms(m, ctx, smt2, evals)
+        return res
+    except z3.Z3Exception:
+        return None
+
+
 def run_cvc5(smt2, timeout_ms, strings=False):
     t0 = time.time()
     txt = smt2
@@ -198,6 +255,10 @@ def _work(job):
             r2["time"] += r["time"]
             return name, r2
         r["cvc5"] = "unknown"
+        rw = run_z3_weakened(smt2, min(timeout_ms, 10000), evals, seed, prefer)
+        if rw is not None:
+            rw["time"] += r["time"] + r2["time"]
+            return name, rw
     elif both and r["verdict"] == "unsat":
         r2 = run_cvc5(smt2, timeout_ms)
         r["cvc5_verdict"] = r2["verdict"]
@@ -223,7 +284,50 @@ def discharge(obls, timeout_ms=30000, procs=None, use_cvc5=True, seed=0, both=Fa
             seen.add(o.name)
     if not jobs:
         return
+    _run_jobs(jobs, by, min(procs, len(jobs)))
+
+
+def _job_entry(conn, job):
+    try:
+        conn.send(_work(job))
+    except BaseException as ex:  # never let a solver crash look like a verdict
+        conn.send((job[0], {"verdict": "unknown", "backend": "none", "time": 0.0, "reason": f"solver process error: {type(ex).__name__}: {ex}"[:200]}))
+    finally:
+        conn.close()
+
+
+def _run_jobs(jobs, by, procs):
+    """One forked process per obligation, at most `procs` at a time, each with a HARD wall-clock deadline (the solvers' own
+    timeouts are soft: z3 occasionally ignores them inside preprocessing / nonlinear tactics).  A job killed at its deadline is
+    `unknown`, never a verdict."""
     ctx = mp.get_context("fork")
-    with ctx.Pool(min(procs, len(jobs))) as pool:
-        for name, r in pool.imap_unordered(_work, jobs, chunksize=1):
+    pending = list(reversed(jobs))
+    running = {}  # conn -> (proc, job, deadline, t0)
+    from multiprocessing.connection import wait
+    while pending or running:
+        while pending and len(running) < procs:
+            job = pending.pop()
+            pr, pw = ctx.Pipe(duplex=False)
+            p = ctx.Process(target=_job_entry, args=(pw, job), daemon=True)
+            p.start()
+            pw.close()
+            # z3 budget + optional cvc5 budget (+ second opinion) + model evaluation slack
+            hard = 3.0 * job[2] / 1000.0 + 20.0
+            running[pr] = (p, job, time.time() + hard, time.time())
+        ready = wait(list(running), timeout=0.5)
+        now = time.time()
+        for c in ready:
+            p, job, dl, t0 = running.pop(c)
+            try:
+                name, r = c.recv()
+            except (EOFError, OSError):
+                name, r = job[0], {"verdict": "unknown", "backend": "none", "time": now - t0, "reason": "solver process died"}
             by[name].result = r
+            c.close()
+            p.join(1)
+        for c in [c for c, (p, job, dl, t0) in running.items() if now > dl]:
+            p, job, dl, t0 = running.pop(c)
+            p.kill()
+            p.join(1)
+            c.close()
+            by[job[0]].result = {"verdict": "unknown", "backend": "none", "time": now - t0, "reason": f"hard deadline ({int(dl - t0)}s) exceeded; solver killed"}
